@@ -1,5 +1,6 @@
 // C12 - ids are well-formed UUIDs, never change and never collide (in a file, across sessions, across processes).
 #include "core/core.hpp"
+#include <hdf5.h>
 #include "core/graph.hpp"
 #include <nix/verif_hooks.hpp>
 #include <sys/wait.h>
@@ -160,6 +161,17 @@ void stability(Ctx &c) {
     }
     c.check(overwrites.empty(), "C12/id-overwritten", [&] { return str(overwrites.size()) + " id attribute(s) of existing objects were overwritten, e.g. " + overwrites[0]; });
     c.count("hook_id_writes", g_idwrites);
+    // a forced open of a file whose format version differs (older, newer) is still an open, not a creation: file and entity ids stay
+    { Observer o0; ONode t0 = o0.file(g.f); std::vector<std::pair<std::string, std::string>> a, b; ids_of(t0, a); std::string fid = g.f.id(); std::vector<int> ver = g.f.version(); g.close();
+      for (int dz = -1; dz <= 1 && ver.size() == 3; dz += 2) { for (FileMode fm : {FileMode::ReadWrite, FileMode::ReadOnly}) {
+        hid_t hf = H5Fopen(g.path.c_str(), H5F_ACC_RDWR, H5P_DEFAULT); bool ok = false; if (hf >= 0) { hid_t at = H5Aopen(hf, "version", H5P_DEFAULT); if (at >= 0) { int buf[3] = {ver[0], ver[1], ver[2] + dz}; ok = H5Awrite(at, H5T_NATIVE_INT, buf) >= 0; H5Aclose(at); } H5Fclose(hf); }
+        if (!ok) continue;
+        c.op(std::string("forced open of a file with another format version | ") + (fm == FileMode::ReadWrite ? "ReadWrite" : "ReadOnly"));
+        try { File ff = File::open(g.path, fm, "hdf5", Compression::Auto, OpenFlags::Force); std::string now = ff.id(); Observer o1; ONode t1 = o1.file(ff); b.clear(); ids_of(t1, b); ff.close();
+              c.check(now == fid, "C12/id-changed/file/forced-open", "file id " + fid + " became " + now + " through a forced open"); c.check(a == b, "C12/id-changed/forced-open", "entity ids differ after a forced open"); c.count("forced_opens"); }
+        catch (std::exception &e) { c.note(std::string("forced open threw: ") + e.what()); } } }
+      hid_t hf = H5Fopen(g.path.c_str(), H5F_ACC_RDWR, H5P_DEFAULT); if (hf >= 0 && ver.size() == 3) { hid_t at = H5Aopen(hf, "version", H5P_DEFAULT); if (at >= 0) { int buf[3] = {ver[0], ver[1], ver[2]}; H5Awrite(at, H5T_NATIVE_INT, buf); H5Aclose(at); } } if (hf >= 0) H5Fclose(hf);
+      g.open(FileMode::ReadWrite); c.check(g.f.id() == fid, "C12/id-changed/file/forced-open", "file id differs after the forced sessions"); }
     // forceId is the only exception
     std::string before = g.f.id(); g.f.forceId(); c.check(g.f.id() != before && well_formed(g.f.id()), "C12/forceId", "forceId did not give a new well-formed id");
     watched.clear(); nix::verif::setSink(nullptr); g_overwrites = nullptr; g.close();
